@@ -1,19 +1,15 @@
-//! Harnesses over the `fuel-core` crate: C11, C36, C37, C38.
+//! Harnesses for fuel-core-block-aggregator-api: C43 (conversions preserve blocks) — headers and receipts.
 #![allow(clippy::all)]
 
 #[path = "../../common/vsrc.rs"]
 #[macro_use]
 pub mod vsrc;
 
-pub mod c11;
-pub mod c36;
+pub mod c43;
 
 #[cfg(not(kani))]
 pub const REPLAY: &[(&str, fn(&mut vsrc::ReplaySrc))] = &[
-    ("c11_next_prefix_p3", |s| c11::next_prefix_contract::<_, 3>(s)),
-    ("c11_next_prefix_p4", |s| c11::next_prefix_contract::<_, 4>(s)),
-    ("c36_coin_step", |s| c36::coin_step(s)),
-    ("c36_message_step", |s| c36::message_step(s)),
+    ("c43_header_roundtrip", |s| c43::header_roundtrip(s)),
 ];
 
 pub fn noop() {}
